@@ -1,5 +1,5 @@
 (* C14 - Algorithm and attestation-format lists are filtered in order, never rejected. *)
-From Ctap Require Import Base Schema Wire Utf8 Typed Procs Inst Tables ProcTables Finite FramingP WireP FilterP ObRequestSide FnShapes Shapes ObShapeFilters Deps ObDeps ObShapeRequest.
+From Ctap Require Import Base Schema Wire Utf8 Typed Procs Inst Tables ProcTables Finite FramingP WireP FilterP ObRequestSide FnShapes Shapes ObShapeFilters Deps ObDeps ObShapeRequest ObShapeAccessors ObShapeTablesReq.
 Local Open Scope string_scope.
 Local Open Scope Z_scope.
 
@@ -67,12 +67,19 @@ Theorem c14_modelled_functions_unchanged_filters : shapes_hold fn_shapes shapes_
 Proof. exact generated_shapes_filters. Qed.
 
 (* the third-party crates the model represents by hand are pinned at the versions it was written against *)
-Theorem c14_modelled_dependencies_pinned : deps_hold lock_versions cargo_deps = true.
+Theorem c14_modelled_dependencies_pinned : deps_hold repo_lock_present lock_versions harness_lock_versions cargo_deps = true.
 Proof. exact generated_deps. Qed.
 
 (* further hand-modelled functions this property rests on *)
 Theorem c14_modelled_functions_unchanged_request : shapes_hold fn_shapes shapes_request = true.
 Proof. exact generated_shapes_request. Qed.
+
+(* lookup tables, accessors, builders and further generators this property rests on *)
+Theorem c14_modelled_functions_unchanged_accessors : shapes_hold fn_shapes shapes_accessors = true.
+Proof. exact generated_shapes_accessors. Qed.
+
+Theorem c14_modelled_functions_unchanged_tables_req : shapes_hold fn_shapes shapes_tables_req = true.
+Proof. exact generated_shapes_tables_req. Qed.
 
 Eval vm_compute in "ASSUMPTIONS c14_known_param". Print Assumptions c14_known_param.
 Eval vm_compute in "ASSUMPTIONS c14_params_filter". Print Assumptions c14_params_filter.
@@ -84,3 +91,5 @@ Eval vm_compute in "ASSUMPTIONS c14_generated_conforms". Print Assumptions c14_g
 Eval vm_compute in "ASSUMPTIONS c14_modelled_functions_unchanged_filters". Print Assumptions c14_modelled_functions_unchanged_filters.
 Eval vm_compute in "ASSUMPTIONS c14_modelled_dependencies_pinned". Print Assumptions c14_modelled_dependencies_pinned.
 Eval vm_compute in "ASSUMPTIONS c14_modelled_functions_unchanged_request". Print Assumptions c14_modelled_functions_unchanged_request.
+Eval vm_compute in "ASSUMPTIONS c14_modelled_functions_unchanged_accessors". Print Assumptions c14_modelled_functions_unchanged_accessors.
+Eval vm_compute in "ASSUMPTIONS c14_modelled_functions_unchanged_tables_req". Print Assumptions c14_modelled_functions_unchanged_tables_req.
